@@ -428,6 +428,7 @@ theorem mergeToks_text : ∀ (ts : List Tok) (acc : String), nodesText (mergeTok
 
 def fmtOk : Inl → Prop
   | .role _ _ _ sp => sp.fmt ≠ some "text"
+  | .roleL _ _ _ _ sp => sp.fmt ≠ some "text"
   | _ => True
 
 theorem inlTok_text (x : Inl) (h : fmtOk x) : toksText [inlTok x] = inlText x := by
@@ -443,6 +444,16 @@ theorem inlTok_text (x : Inl) (h : fmtOk x) : toksText [inlTok x] = inlText x :=
   | footref nm => simp [inlTok, toksText, inlText, nodesText, nodeText, leaf]
   | subref nm => simp [inlTok, toksText, inlText, nodesText, nodeText, leaf]
   | namedref nm => simp [inlTok, toksText, inlText, nodesText, nodeText, nodeText_textNode]
+  | roleL m ls lt t sp =>
+    have hf : sp.fmt ≠ some "text" := h
+    simp only [inlTok, toksText, String.append_empty, roleNodes]
+    by_cases h1 : sp.kind = "text"
+    · simp [h1, inlText, nodesText, nodeText, nodeText_textNode]
+    · by_cases h2 : sp.kind = "explicit_title"
+      · simp [h1, h2, inlText, nodesText, nodeText, nodeText_textNode]
+      · by_cases h3 : sp.kind = "ref"
+        · simp [h1, h2, h3, inlText, nodesText, nodeText, wrapFmt_text _ _ hf, nodeText_textNode]
+        · simp [h1, h2, h3, inlText, wrapFmt_text _ _ hf, nodesText, nodeText, nodeText_textNode]
   | role m l t sp =>
     have hf : sp.fmt ≠ some "text" := h
     simp only [inlTok, toksText, String.append_empty, roleNodes]
